@@ -458,6 +458,9 @@ class ProcTable:
         ok = [c for c in cpus if 0 <= c < self.ncpu]
         if not ok:
             raise oserr(errno.EINVAL)
+        if getattr(p, "affinity_refused", False):
+            # a cpuset / a per-CPU kernel thread (PF_NO_SETAFFINITY): the kernel refuses perfectly valid CPU numbers
+            raise oserr(errno.EINVAL)
         vk.events.append(("affinity_set", pid, tuple(sorted(cpus)), p.inc))
         p.affinity = sorted(set(ok))
 
